@@ -21,7 +21,8 @@ import numpy as np
 from harness import core, tlc, tlaval
 from harness import models as hm
 
-INVARIANTS = ['TermViewEqualsOpView', 'StoredHalf', 'HermitianWheneverTermsAre', 'BondSumIsH', 'ConservationInherited']
+INVARIANTS = ['TermViewEqualsOpView', 'StoredHalf', 'HermitianWheneverTermsAre', 'BondSumIsH', 'ConservationInherited',
+              'GraphSemantics']  # the last one is stated in module MPOGraph (EXTENDS ModelDecl)
 WORKERS = int(os.environ.get('VERIF_TLC_WORKERS', '8'))
 
 
@@ -380,6 +381,27 @@ def replay_hist(ctx, cfg, hist, key, only_last=False, full=False):
 # ------------------------------------------------------------------------------------------------
 # TRACE: the real MPOGraph, judged by TLC
 # ------------------------------------------------------------------------------------------------
+def printed_value(txt, tag):
+    """The TLA+ value TLC printed with PrintT(<<tag, ...>>), possibly spread over several lines."""
+    i = txt.find('"%s"' % tag)
+    i = txt.rfind('<<', 0, i) if i >= 0 else -1
+    if i < 0:
+        return None
+    depth, k = 0, i
+    while k < len(txt):
+        if txt.startswith('<<', k):
+            depth += 1
+            k += 2
+        elif txt.startswith('>>', k):
+            depth -= 1
+            k += 2
+            if depth == 0:
+                return tlaval.parse_value(txt[i:k])
+        else:
+            k += 1
+    return None
+
+
 def dyadic(x):
     """float/complex -> (re, im, k) with x = (re + i im) / 2^k exactly."""
     z = complex(x)
@@ -452,11 +474,19 @@ def run_trace(ctx, items, name, corrupt=False):
     cases = []
     meta = {}
     with GraphCapture() as cap:
-        for n, (cfg, decls, explicit, conserve) in enumerate(items):
+        for n, item in enumerate(items):
+            cfg, decls, explicit, conserve = item[:4]
             del cap.graphs[:]
             try:
-                hm.build_model(cfg, decls, explicit_plus_hc=explicit, conserve=conserve)
+                if len(item) > 4:
+                    item[4]()  # predefined model: builder closure
+                else:
+                    hm.build_model(cfg, decls, explicit_plus_hc=explicit, conserve=conserve)
+            except core.MachineryError:
+                raise
             except Exception:
+                if len(item) > 4:
+                    raise
                 continue  # reported by the REPLAY stage
             if len(cap.graphs) != 1:
                 raise core.MachineryError('expected exactly one MPOGraph per model, got %d' % len(cap.graphs))
@@ -466,7 +496,7 @@ def run_trace(ctx, items, name, corrupt=False):
                 e['s'][0] += 1  # canary: one strength of the real graph is changed
             if gc is not None:
                 cases.append(gc)
-                meta[n] = (cfg, decls, explicit, conserve)
+                meta[n] = (cfg, decls, explicit, conserve if len(item) == 4 else item[5])
     if not cases:
         raise core.MachineryError('no MPO graph captured')
     d = tlc.scratch('c10trace')
@@ -477,12 +507,7 @@ def run_trace(ctx, items, name, corrupt=False):
         cfgp = tlc.write_cfg(os.path.join(d, 'TraceMPOGraph.cfg'), spec='TraceSpec', invariants=['Done'])
         res = tlc.run(os.path.join(tlc.SPEC_DIR, 'TraceMPOGraph.tla'), cfgp, workers=1, env=dict(TRACE_FILE=path), timeout=3000)
         tlc.require_clean(res, 'TraceMPOGraph')
-        import re
-        m = re.search(r'<<"TRACE-VERDICT", (\d+), (.*?)>>\s*$', res.stdout, re.M | re.S)
-        verdict = None
-        for line in res.stdout.split('\n'):
-            if line.startswith('<<"TRACE-VERDICT"'):
-                verdict = tlaval.parse_value(line.strip())
+        verdict = printed_value(res.stdout, 'TRACE-VERDICT')
         if verdict is None or verdict[1] != len(cases) or res.violated:
             raise core.MachineryError('TraceMPOGraph gave no verdict:\n' + res.stdout[-1500:])
         ctx.add_mc(name, res)
@@ -504,6 +529,164 @@ def run_trace(ctx, items, name, corrupt=False):
 
 
 # ------------------------------------------------------------------------------------------------
+# predefined models: their add_* calls are recorded by interposition and become the declarations of the spec
+# ------------------------------------------------------------------------------------------------
+OPMAP = {'Sz': ('Sigmaz', 0.5), 'Sx': ('Sigmax', 0.5), 'Sy': ('Sigmay', 0.5)}
+
+
+class DeclRecorder:
+    """Wraps CouplingModel.add_onsite / add_coupling / add_multi_coupling / add_exponentially_decaying_coupling /
+    add_local_term (outermost calls only) and converts the arguments into declaration records of the spec."""
+    NAMES = ('add_onsite', 'add_coupling', 'add_multi_coupling', 'add_exponentially_decaying_coupling', 'add_local_term',
+             'add_onsite_term', 'add_coupling_term', 'add_multi_coupling_term', 'add_exponentially_decaying_centered_terms')
+
+    def __enter__(self):
+        from tenpy.models import model as tm
+        self.tm = tm
+        self.calls = []
+        self.depth = 0
+        self.orig = {}
+        rec = self
+        for cls in (tm.CouplingModel, tm.CouplingMPOModel):
+            for name in self.NAMES:
+                if name not in cls.__dict__:
+                    if cls is tm.CouplingModel:
+                        raise core.MachineryError('interposition point CouplingModel.%s missing' % name)
+                    continue
+                f = cls.__dict__[name]
+                self.orig[(cls, name)] = f
+
+                def make(f, name):
+                    def wrapper(self_, *a, **kw):
+                        if rec.depth == 0:
+                            rec.calls.append((name, a, kw))
+                        rec.depth += 1
+                        try:
+                            return f(self_, *a, **kw)
+                        finally:
+                            rec.depth -= 1
+                    return wrapper
+                setattr(cls, name, make(f, name))
+        return self
+
+    def __exit__(self, *exc):
+        for (cls, name), f in self.orig.items():
+            setattr(cls, name, f)
+
+
+def _gauss(x):
+    z = complex(x)
+    if z.real != int(z.real) or z.imag != int(z.imag):
+        raise core.MachineryError('recorded strength %r is not a Gaussian integer: choose other model parameters' % (x,))
+    return [int(z.real), int(z.imag)]
+
+
+def _strength_record(strength, factor, dim):
+    arr = np.asarray(strength) * factor
+    if arr.ndim == 0:
+        return dict(shape=[1, 1], vals=[_gauss(arr)])
+    if arr.ndim == 1:
+        arr = arr.reshape(-1, 1)
+    return dict(shape=[int(arr.shape[0]), int(arr.shape[1])], vals=[_gauss(v) for v in arr.reshape(-1)])
+
+
+def _opname(op):
+    return OPMAP.get(op, (op, 1.0))
+
+
+def decls_from_calls(calls, dim):
+    """Recorded add_* calls -> declarations (None if a call is outside the alphabet of the spec)."""
+    import inspect
+    from tenpy.models.model import CouplingModel
+    out = []
+    for name, a, kw in calls:
+        sig = inspect.signature(getattr(CouplingModel, name))
+        ba = sig.bind(None, *a, **kw)
+        ba.apply_defaults()
+        ar = ba.arguments
+        if not np.any(np.asarray(ar['strength']) != 0):
+            continue
+        if name == 'add_onsite':
+            op, f = _opname(ar['opname'])
+            out.append(dict(kind='onsite', s=_strength_record(ar['strength'], f, dim), u=int(ar['u']), op=op, hc=bool(ar['plus_hc'])))
+        elif name == 'add_coupling':
+            o1, f1 = _opname(ar['op1'])
+            o2, f2 = _opname(ar['op2'])
+            dx = [int(x) for x in np.atleast_1d(ar['dx'])] + [0] * (2 - len(np.atleast_1d(ar['dx'])))
+            if ar['op_string'] is not None:
+                return None
+            out.append(dict(kind='coupling', s=_strength_record(ar['strength'], f1 * f2, dim),
+                            ops=[[o1, [0, 0], int(ar['u1'])], [o2, dx, int(ar['u2'])]], str='auto', hc=bool(ar['plus_hc'])))
+        elif name == 'add_multi_coupling':
+            ops, f = [], 1.0
+            for opn, dx, u in ar['ops']:
+                o, ff = _opname(opn)
+                f *= ff
+                dxl = [int(x) for x in np.atleast_1d(dx)]
+                ops.append([o, dxl + [0] * (2 - len(dxl)), int(u)])
+            if ar['op_string'] is not None:
+                return None
+            out.append(dict(kind='multi', s=_strength_record(ar['strength'], f, dim), ops=ops, str='auto', hc=bool(ar['plus_hc'])))
+        else:
+            return None
+    return out
+
+
+def predefined_items(ctx):
+    """(cfg, decls, explicit, conserve, builder, label) for a grid of predefined models / parameters / options."""
+    from tenpy.models.tf_ising import TFIChain, TFIModel
+    from tenpy.models.xxz_chain import XXZChain2
+    from tenpy.models.spins import SpinChain
+    from tenpy.models.fermions_spinless import FermionChain, FermionModel
+    from tenpy.models.hubbard import BoseHubbardChain
+    grid = []
+
+    def chain(L, bc_MPS, t):
+        return dict(name='Chain', Lx=L, Ly=1, bcx='open' if bc_MPS == 'finite' else 'periodic', bcy='open', mps=bc_MPS, uc=[t],
+                    cells=1 if bc_MPS == 'finite' else 2)
+    for bc_MPS, L in (('finite', 3), ('finite', 4), ('infinite', 2)):
+        for expl in (False, True):
+            for cons in (None, 'parity'):
+                grid.append((TFIChain, dict(L=L, J=2., g=[1., 3.] if L % 2 == 0 else 3., bc_MPS=bc_MPS, conserve=cons,
+                                            explicit_plus_hc=expl), chain(L, bc_MPS, 'spin'), cons))
+            for cons in (None, 'Sz', 'parity'):
+                grid.append((XXZChain2, dict(L=L, Jxx=2., Jz=8., hz=4., bc_MPS=bc_MPS, conserve=cons, explicit_plus_hc=expl),
+                             chain(L, bc_MPS, 'spin'), cons))
+            grid.append((SpinChain, dict(L=L, S=0.5, Jx=6., Jy=2., Jz=4., hx=2., hy=4., hz=2., bc_MPS=bc_MPS, conserve=None,
+                                         explicit_plus_hc=expl), chain(L, bc_MPS, 'spin'), None))
+            grid.append((SpinChain, dict(L=L, S=0.5, Jx=4., Jy=4., Jz=-8., hz=6., bc_MPS=bc_MPS, conserve='Sz',
+                                         explicit_plus_hc=expl), chain(L, bc_MPS, 'spin'), 'Sz'))
+            for cons in (None, 'N', 'parity'):
+                grid.append((FermionChain, dict(L=L, J=1., V=2., mu=3., bc_MPS=bc_MPS, conserve=cons, explicit_plus_hc=expl),
+                             chain(L, bc_MPS, 'fermion'), cons))
+                grid.append((BoseHubbardChain, dict(L=L, n_max=1, t=2., U=4., V=1., mu=1., bc_MPS=bc_MPS, conserve=cons,
+                                                    explicit_plus_hc=expl), chain(L, bc_MPS, 'boson1'), cons))
+    for bcy in ('cylinder', 'ladder'):
+        sq = dict(name='Square', Lx=2, Ly=2, bcx='open', bcy='periodic' if bcy == 'cylinder' else 'open', mps='finite', cells=1)
+        grid.append((TFIModel, dict(lattice='Square', Lx=2, Ly=2, bc_y=bcy, bc_MPS='finite', J=1., g=2., conserve=None),
+                     dict(sq, uc=['spin']), None))
+        grid.append((FermionModel, dict(lattice='Square', Lx=2, Ly=2, bc_y=bcy, bc_MPS='finite', J=1., V=1., mu=2., conserve='N'),
+                     dict(sq, uc=['fermion']), 'N'))
+    items = []
+    for cls, params, cfg, cons in grid:
+        with DeclRecorder() as rec:
+            with warnings.catch_warnings():
+                warnings.simplefilter('ignore')
+                cls(dict(params))
+        decls = decls_from_calls(rec.calls, hm.lat_dim(cfg))
+        if decls is None or not decls:
+            raise core.MachineryError('could not translate the add_* calls of %s' % cls.__name__)
+        expl = bool(params.get('explicit_plus_hc', False))
+
+        def builder(cls=cls, params=params):
+            with warnings.catch_warnings():
+                warnings.simplefilter('ignore')
+                return cls(dict(params))
+        items.append((cfg, decls, expl, cons, builder, '%s(%s)' % (cls.__name__, cons)))
+    return items
+
+
+# ------------------------------------------------------------------------------------------------
 def run_site_tables(ctx):
     """The operator tables the specification is built on, evaluated by TLC, against the real Site classes."""
     d = tlc.scratch('c10tables')
@@ -517,27 +700,7 @@ def run_site_tables(ctx):
         cfgp = tlc.write_cfg(os.path.join(d, 'C10Tables.cfg'), invariants=['Inv'])
         res = tlc.run(mod, cfgp, workers=1)
         tlc.require_clean(res, 'C10Tables')
-        val = None
-        txt = res.stdout
-        i = txt.find('"TABLES"')
-        i = txt.rfind('<<', 0, i) if i >= 0 else -1
-        if i >= 0:
-            j = txt.find('\n\n', i)
-            depth, k = 0, i
-            # the value may span lines: scan to the matching >>
-            while k < len(txt):
-                if txt.startswith('<<', k):
-                    depth += 1
-                    k += 2
-                    continue
-                if txt.startswith('>>', k):
-                    depth -= 1
-                    k += 2
-                    if depth == 0:
-                        break
-                    continue
-                k += 1
-            val = tlaval.parse_value(txt[i:k])
+        val = printed_value(res.stdout, 'TABLES')
         if val is None:
             raise core.MachineryError('could not read the operator tables from TLC')
         ctx.add_mc('C10Tables', res)
@@ -563,8 +726,8 @@ def run_site_tables(ctx):
         shutil.rmtree(d, ignore_errors=True)
 
 
-def run_replay_mc(ctx, lattices, maxdecl, name, trace_items, stride=1):
-    res, dump, d = tlc.mc('ModelDecl', decl_cfg(lattices, maxdecl, 'mc'), dump=True, workers=WORKERS)
+def run_replay_mc(ctx, lattices, maxdecl, name, trace_items, stride=1, profile='mc'):
+    res, dump, d = tlc.mc('MPOGraph', decl_cfg(lattices, maxdecl, profile), dump=True, workers=WORKERS)
     ctx.add_mc(name, res)
     if res.violated:
         ctx.violation(dict(kind='mc', spec='ModelDecl', invariant=res.violated[0]),
@@ -594,7 +757,7 @@ def run_replay_mc(ctx, lattices, maxdecl, name, trace_items, stride=1):
 
 def run_replay_sim(ctx, lattices, maxdecl, num, trace_items):
     per_worker = max(1, num // 4)
-    res, traces, d = tlc.simulate('ModelDecl', decl_cfg(lattices, maxdecl, 'sim', invariants=[]), num=per_worker,
+    res, traces, d = tlc.simulate('MPOGraph', decl_cfg(lattices, maxdecl, 'sim', invariants=[]), num=per_worker,
                                   depth=2 * maxdecl + 2, seed=ctx.seed + 10, workers=4)
     shutil.rmtree(d, ignore_errors=True)
     n = 0
@@ -666,6 +829,8 @@ def check(ctx):
         if not trace_items:
             raise core.MachineryError('no models for the TRACE stage')
         run_trace(ctx, trace_items, 'TraceMPOGraph')
+    if not only or 'predefined' in only:
+        run_trace(ctx, predefined_items(ctx), 'TraceMPOGraph-predefined')
     if not only or 'canary' in only:
         run_canary(ctx, trace_items)
     ctx.exhaustive = False
